@@ -130,7 +130,9 @@ STR_LOOKALIKE = ['nil', 'array', 'array[4]', 'fd 3', 'new id x@3', 'new id [unkn
                  '(null)', 'null', '(nil)', 'NULL', 'None', '<null>', 'nil ', ' nil', 'true', 'false', '0x10', '#5', '@5', 'fd', 'new id', 'array[', '...', '[...]']
 STR_FRAGMENT = ['[1.0]  -> a@1.b(', '}  -> c@2.d(', '} x#2.y(', '[12.345] a@1.b()', '[1.000] {q} <2>  -> a#1.b(1)',
                 ' [5.0] z@9.q(', '<7> x#1.y(', '{z} <7>  -> x#1.y(', ']  -> a@1.b(']
-STR_UNI = ['żółć', '日本語', 'naïve café', '→ ↲', '───┤', 'emoji 😀', 'Ω, ω', ' nbsp']
+STR_UNI = ['żółć', '日本語', 'naïve café', '→ ↲', '───┤', 'emoji 😀', 'Ω, ω', ' nbsp',
+           # not in the Unicode normal forms the others are in: decomposed accents, conjoining jamo, singletons, compatibility characters
+           'Cafe\u0301', '\u1112\u1161\u11ab', '\u2126hm', '\u212bngstro\u0308m', 'x\u00b2 \u00bd \ufb01n', '\uff21\uff22', 'a\u0323\u0302', '\u0130stanbul \u0131']
 
 
 def gen_string(rng, classes=None):
